@@ -1,4 +1,5 @@
 """C10 — bit-level fields are packed MSB-first across byte boundaries on both code paths."""
+import sys
 import itertools
 
 from hypothesis import strategies as st
@@ -18,7 +19,7 @@ RULE = ("field lists partitioning 8..64 bits into BitsInteger fields of width 1.
 ASSUMPTIONS = ["widths sum to a multiple of 8; swapped only for widths that are multiples of 8 (documented)"]
 
 
-# field: ["bits", w, signed, swapped] | ["flag"] | ["pad", w] | ["alias", name] | ["bytewise", nbytes, signed, swapped]
+# field: ["bits", w, signed, swapped] | ["flag"] | ["pad", w] | ["alias", name] | ["bytewise", nbytes, signed, swapped(, "bi"|"ff"|"native")]
 #        | ["array", count, w, signed] | ["struct", [fields]]
 def width(f):
     k = f[0]
@@ -61,6 +62,11 @@ def unpattern(u, w, signed, swapped):
     return u
 
 
+def bw_swapped(f):
+    """byte order of a Bytewise integer island: as declared, or the host's for the native-endian aliases (Int16un ...)"""
+    return (sys.byteorder == "little") if len(f) > 4 and f[4] == "native" else f[3]
+
+
 def model_build(fields, values):
     """-> (accumulated int, total bits)"""
     acc, n = 0, 0
@@ -77,7 +83,7 @@ def model_build(fields, values):
             p = v
         elif k == "bytewise":
             # Bytewise(BytesInteger(n, signed, swapped)): the island holds the integer's bytes in stream order
-            b = (v & ((1 << w) - 1)).to_bytes(f[1], "little" if f[3] else "big")
+            b = (v & ((1 << w) - 1)).to_bytes(f[1], "little" if bw_swapped(f) else "big")
             p = int.from_bytes(b, "big")
         elif k == "zero":
             p = 0
@@ -110,7 +116,7 @@ def model_parse(fields, acc, n):
             out.append(u)
         elif k == "bytewise":
             b = u.to_bytes(f[1], "big")
-            out.append(int.from_bytes(b, "little" if f[3] else "big", signed=f[2]))
+            out.append(int.from_bytes(b, "little" if bw_swapped(f) else "big", signed=f[2]))
         elif k == "zero":
             out.append({"bytes": b"", "array": [], "struct": {}}[f[1]])
         elif k == "array":
@@ -149,7 +155,12 @@ def make(fields, streaming, counter=None, params=None):
         elif k == "alias":
             subs.append(name / getattr(C, f[1]))
         elif k == "bytewise":
-            subs.append(name / C.Bytewise(C.BytesInteger(wexpr(f[1]), signed=f[2], swapped=f[3])))
+            if len(f) > 4 and f[4] != "bi":
+                # the struct-module fields, by their public names: Int16ub, Int32sl, Int64un ...
+                alias = "Int%d%s%s" % (8 * f[1], "s" if f[2] else "u", "n" if f[4] == "native" else ("l" if f[3] else "b"))
+                subs.append(name / C.Bytewise(getattr(C, alias)))
+            else:
+                subs.append(name / C.Bytewise(C.BytesInteger(wexpr(f[1]), signed=f[2], swapped=f[3])))
         elif k == "zero":
             # a byte-level island of no bytes at all: it must take nothing from the bit stream and give nothing to it
             inner0 = {"bytes": C.Bytes(0), "array": C.Array(0, C.Byte), "struct": C.Struct()}[f[1]]
@@ -385,7 +396,9 @@ def layouts(draw, depth=1):
         elif k == "alias":
             fields.append(["alias", draw(st.sampled_from(["Bit", "Nibble", "Octet"]))])
         elif k == "bytewise":
-            fields.append(["bytewise", draw(st.integers(1, 3)), draw(st.booleans()), draw(st.booleans())])
+            form = draw(st.sampled_from(["bi", "bi", "ff", "native"]))
+            n = draw(st.integers(1, 3)) if form == "bi" else draw(st.sampled_from([1, 2, 2, 4, 8]))
+            fields.append(["bytewise", n, draw(st.booleans()), draw(st.booleans()), form])
         elif k == "array":
             fields.append(["array", draw(st.integers(0, 4)), draw(st.integers(1, 9)), draw(st.booleans())])
         else:
